@@ -328,7 +328,7 @@ def frame (s : Step) (d : Option Wl) (o : StepOut) : Bool :=
   | none, none => o.writes == 0
   | _, _ => false
 
-/-! ### no crash (attached to C07: a controller that crash-loops finishes no rollout) -/
+/-! ### no crash (attached to C07 — a controller that crash-loops finishes no rollout — and to C09) -/
 
 /-- object states an API server holds and plans the executor passes: `spec.replicas` is set (the API server defaults
     it) and, unless the workload is empty, the current batch lies inside the plan -/
@@ -340,21 +340,9 @@ def callInputOK (rel : Rel) (s : Step) (d : Option Wl) : Bool :=
     | none => false
     | some r => s.call != .upgradeBatch || r == 0 || (entryOf rel s.batch).isSome
 
-/-- **no crash, full strength**: no call panics on such inputs (`panicked`: the call did) -/
-def noCrashFull (rel : Rel) (s : Step) (d : Option Wl) (panicked : Bool) : Bool :=
+/-- **no crash**: no call panics on such inputs (`panicked`: the call did) -/
+def noCrash (rel : Rel) (s : Step) (d : Option Wl) (panicked : Bool) : Bool :=
   if callInputOK rel s d then !panicked else true
-
-/-- known-finding guard `dsNoRollingUpdate`: `UpgradeBatch` of a non-empty Advanced DaemonSet that has no
-    `updateStrategy.rollingUpdate` block (type `OnDelete`, or the block removed by its user during the rollout) -/
-def guardDsNoRU (s : Step) (d : Option Wl) : Bool :=
-  s.call == .upgradeBatch &&
-  (match d with
-   | some w => dsNoRU w && replicasOf w != some 0
-   | none => false)
-
-/-- the part of `noCrashFull` that is a theorem of the unchanged code -/
-def noCrashPartial (rel : Rel) (s : Step) (d : Option Wl) (panicked : Bool) : Bool :=
-  guardDsNoRU s d || noCrashFull rel s d panicked
 
 def isPanic {α : Type} : Out α → Bool
   | .panic => true
